@@ -2,6 +2,7 @@
 //! 
 //! Provides Redis-compatible stream operations including XADD, XREAD, XRANGE, and more.
 
+use crate::storage::commands::RedisInt;
 use crate::error::Result;
 use crate::protocol::RespFrame;
 use crate::storage::StorageEngine;
@@ -139,7 +140,7 @@ pub fn handle_xrange(storage: &Arc<StorageEngine>, db: usize, parts: &[RespFrame
         if count_keyword == "COUNT" {
             match &parts[5] {
                 RespFrame::BulkString(Some(bytes)) => {
-                    match String::from_utf8_lossy(bytes).parse::<usize>() {
+                    match String::from_utf8_lossy(bytes).parse_redis::<usize>() {
                         Ok(n) => Some(n),
                         Err(_) => return Ok(RespFrame::error("ERR value is not an integer or out of range")),
                     }
@@ -225,7 +226,7 @@ pub fn handle_xrevrange(storage: &Arc<StorageEngine>, db: usize, parts: &[RespFr
     let count = if parts.len() >= 6 && parts[4].as_bulk_string_lossy().map(|s| s.to_uppercase()) == Some("COUNT".to_string()) {
         match &parts[5] {
             RespFrame::BulkString(Some(bytes)) => {
-                match String::from_utf8_lossy(bytes).parse::<usize>() {
+                match String::from_utf8_lossy(bytes).parse_redis::<usize>() {
                     Ok(n) => Some(n),
                     Err(_) => return Ok(RespFrame::error("ERR value is not an integer or out of range")),
                 }
@@ -235,7 +236,7 @@ pub fn handle_xrevrange(storage: &Arc<StorageEngine>, db: usize, parts: &[RespFr
     } else if parts.len() == 5 {
         // Try to parse as a number
         match parts[4].as_bulk_string_lossy() {
-            Some(s) if s.parse::<usize>().is_ok() => Some(s.parse::<usize>().unwrap()),
+            Some(s) if s.parse_redis::<usize>().is_ok() => Some(s.parse_redis::<usize>().unwrap()),
             _ => None,
         }
     } else {
@@ -302,7 +303,7 @@ pub fn handle_xread(storage: &Arc<StorageEngine>, db: usize, parts: &[RespFrame]
                 if arg == "COUNT" && i + 1 < parts.len() {
                     match &parts[i + 1] {
                         RespFrame::BulkString(Some(bytes)) => {
-                            match String::from_utf8_lossy(bytes).parse::<usize>() {
+                            match String::from_utf8_lossy(bytes).parse_redis::<usize>() {
                                 Ok(n) => count = Some(n),
                                 Err(_) => return Ok(RespFrame::error("ERR value is not an integer or out of range")),
                             }
@@ -313,7 +314,7 @@ pub fn handle_xread(storage: &Arc<StorageEngine>, db: usize, parts: &[RespFrame]
                 } else if arg == "BLOCK" && i + 1 < parts.len() {
                     match &parts[i + 1] {
                         RespFrame::BulkString(Some(bytes)) => {
-                            match String::from_utf8_lossy(bytes).parse::<u64>() {
+                            match String::from_utf8_lossy(bytes).parse_redis::<u64>() {
                                 Ok(n) => block_ms = Some(n),
                                 Err(_) => return Ok(RespFrame::error("ERR timeout is not a float or out of range")),
                             }
@@ -466,14 +467,14 @@ pub fn handle_xtrim(storage: &Arc<StorageEngine>, db: usize, parts: &[RespFrame]
             // Parse the actual count from the next argument
             match &parts[4] {
                 RespFrame::BulkString(Some(bytes)) => {
-                    match String::from_utf8_lossy(bytes).parse::<usize>() {
+                    match String::from_utf8_lossy(bytes).parse_redis::<usize>() {
                         Ok(n) => n,
                         Err(_) => return Ok(RespFrame::error("ERR value is not an integer or out of range")),
                     }
                 }
                 _ => return Ok(RespFrame::error("ERR value is not an integer or out of range")),
             }
-        } else if let Ok(n) = modifier.parse::<usize>() {
+        } else if let Ok(n) = modifier.parse_redis::<usize>() {
             // The "modifier" is actually the count (Pattern: XTRIM stream MAXLEN 5 something)
             n
         } else {
@@ -488,7 +489,7 @@ pub fn handle_xtrim(storage: &Arc<StorageEngine>, db: usize, parts: &[RespFrame]
                 if arg == "~" || arg == "=" {
                     return Ok(RespFrame::error("ERR syntax error"));
                 }
-                match arg.parse::<usize>() {
+                match arg.parse_redis::<usize>() {
                     Ok(n) => n,
                     Err(_) => return Ok(RespFrame::error("ERR value is not an integer or out of range")),
                 }
